@@ -16,7 +16,24 @@ LD = np.longdouble
 
 
 # ------------------------------------------------------------------------ convex facets
+class OracleUnreliable(Exception):
+    """The input is too close to a decision boundary for this oracle (e.g. nearly coplanar data
+    given with few digits); the case is counted and skipped, never judged."""
+
+
 def convex_facets(points, rel=1e-9):
+    """Robust wrapper: the facet complex must be a closed oriented surface; otherwise the coplanarity
+    tolerance is widened (data tabulated with ~9 digits), and if that does not help the oracle abstains."""
+    last = None
+    for r in (rel, rel * 100, rel * 1e4):
+        out = _convex_facets(points, r)
+        if len(out[0]) >= 4 and mesh_is_closed_oriented(out[0]):
+            return out
+        last = out
+    raise OracleUnreliable("facets of the hull do not form a closed surface at any tolerance")
+
+
+def _convex_facets(points, rel=1e-9):
     """Facets of conv(points) by brute force over vertex triples.
 
     Returns (facets, normals, offsets, is_vertex): facets are lists of vertex indices
